@@ -32,7 +32,10 @@ func RunC13Sweep(p *Plan, env *Env) *RunResult {
 	}
 	counts := res.EvCounts
 	r := NewRng(p.Seed ^ 0xc13)
-	budget := 90
+	budget, perStmt, perKind := 90, 45, 2
+	if p.Tier == "thorough" {
+		budget, perStmt, perKind = 500, 120, 4
+	}
 	// statements to sweep: prefer one of each kind
 	seen := map[string]int{}
 	var order []int
@@ -50,14 +53,14 @@ func RunC13Sweep(p *Plan, env *Env) *RunResult {
 			break
 		}
 		k := p.Stmts[i].Kind
-		if seen[k] >= 2 {
+		if seen[k] >= perKind {
 			continue
 		}
 		seen[k]++
 		n := counts[i]
 		step := 1
-		if n > 45 {
-			step = n / 45
+		if n > perStmt {
+			step = n / perStmt
 		}
 		for at := 0; at < n && budget > 0; at += step {
 			budget--
